@@ -142,7 +142,23 @@ func genC20(t *rapid.T) *Case {
 	nm := g.intn(1, 3, "nmarked")
 	for i := 0; i < nm; i++ {
 		pos := g.intn(0, len(blocks), "mpos")
-		blocks = append(blocks[:pos], append([]string{g.c20Marked()}, blocks[pos:]...)...)
+		marked := g.c20Marked()
+		blocks = append(blocks[:pos], append([]string{marked}, blocks[pos:]...)...)
+		// elements that are exempt from pruning (anchors, table descendants) carrying the very same
+		// marker, before or after the marked block
+		if g.chance(35, "exempt") {
+			attr := rxC20Attr.FindStringSubmatch(marked)[1]
+			var ex string
+			if g.chance(50, "exemptkind") && !strings.Contains(attr, "role=") {
+				ex = "<p>" + g.words(g.intn(20, 40, "exw")) + " <a" + c20MarkOpen + attr + c20MarkClose + ` href="/x/` + g.tokp("l") + `">` + g.words(g.intn(2, 5, "exaw")) + "</a> " + g.words(g.intn(20, 40, "exw2")) + "</p>\n"
+			} else if !strings.Contains(attr, "role=") {
+				ex = "<table><tr><td" + c20MarkOpen + attr + c20MarkClose + ">" + g.words(g.intn(30, 60, "extw")) + "</td></tr></table>\n"
+			}
+			if ex != "" {
+				epos := g.intn(0, len(blocks), "expos")
+				blocks = append(blocks[:epos], append([]string{ex}, blocks[epos:]...)...)
+			}
+		}
 	}
 	var b strings.Builder
 	b.WriteString("<!DOCTYPE html><html><head><title>" + func() string { g.push("ha"); defer g.pop(); return g.words(3) }() + "</title></head><body>\n")
